@@ -21,6 +21,7 @@ import os
 import pickle
 import random
 import shutil
+import signal
 import struct
 import sys
 import tempfile
@@ -749,6 +750,39 @@ def _run_op(kind, op, real, h, run, tid, touched):
     raise ValueError(op)
 
 
+# ---------------------------------------------------------------- watchdog
+class CaseTimeout(BaseException):
+    """the storage did not come back (BaseException: passes through `guard`)"""
+
+
+def _alarm(signum, frame):
+    raise CaseTimeout()
+
+
+def with_timeout(f, seconds):
+    old = signal.signal(signal.SIGALRM, _alarm)
+    signal.setitimer(signal.ITIMER_REAL, seconds)
+    try:
+        return f()
+    finally:
+        signal.setitimer(signal.ITIMER_REAL, 0)
+        signal.signal(signal.SIGALRM, old)
+
+
+CASE_TIMEOUT = 90.0       # a case normally takes well under a second
+SHRINK_TIMEOUT = 20.0
+
+
+def judge(case, tmp, timeout, full_every=False):
+    """execute and compare with the oracle: (run | None, signature | None, diff | None)"""
+    try:
+        run = with_timeout(lambda: execute(case, tmp, full_every), timeout)
+    except CaseTimeout:
+        return None, 'C04:%s:hang' % case['kind'], (0, 'no answer within %ds' % timeout, 'an answer')
+    d = oracle_diff(run)
+    return run, (signature(case, run, d) if d is not None else None), d
+
+
 # ---------------------------------------------------------------- verdict on one executed case
 def first_diff(a, b):
     sa, sb = a.split(' | '), b.split(' | ')
@@ -784,11 +818,9 @@ def signature(case, run, diff):
 def shrink(case, tmp, sig):
     def fails_case(c):
         try:
-            r = execute(c, tmp)
+            return judge(c, tmp, SHRINK_TIMEOUT)[1] == sig
         except Exception:  # noqa: BLE001
             return False
-        d = oracle_diff(r)
-        return d is not None and signature(c, r, d) == sig
 
     def with_txns(txns):
         c = dict(case)
@@ -964,29 +996,37 @@ def work(args):
     os.makedirs(tmp, exist_ok=True)
     for case in cases:
         try:
-            run = execute(case, tmp, full_every)
+            run, sig, d = judge(case, tmp, CASE_TIMEOUT, full_every)
         except Exception as e:  # noqa: BLE001
             import traceback
             res['infra'] = 'executing a case failed: %r\n%s\ncase=%s' % (
                 e, traceback.format_exc()[-1500:], json.dumps(case)[:3000])
             return res
+        if run is None:       # the real storage hung: a violation in its own right
+            res['cases'].append((case, False, None))
+            res['counts']['violation:' + sig] = res['counts'].get('violation:' + sig, 0) + 1
+            if sum(1 for v in res['violations'] if v[0] == sig) < 1:
+                small = shrink(case, tmp, sig)
+                res['violations'].append((sig, '%s storage did not answer a query within %d s (endless '
+                                          'loop?)' % (case['kind'], SHRINK_TIMEOUT), small))
+            continue
         runs.append(run)
         for k, v in run.counts.items():
             res['counts'][k] = res['counts'].get(k, 0) + v
         for r in run.real:
             if r.startswith('err:'):
                 res['counts'][r.split()[0]] = res['counts'].get(r.split()[0], 0) + 1
-        d = oracle_diff(run)
         sample = dict(kind=case['kind'], ops=[l for l in run.lines if l and not l.startswith('qall')][:14],
                       real=[r[:160] for r in run.real][:14])
         res['cases'].append((case, run.nontrivial, sample))
+        run.case = case
         if d is not None:
-            sig = signature(case, run, d)
             res['counts']['violation:' + sig] = res['counts'].get('violation:' + sig, 0) + 1
             if sum(1 for v in res['violations'] if v[0] == sig) < 2:
                 small = shrink(case, tmp, sig)
-                r2 = execute(small, tmp)
-                d2 = oracle_diff(r2) or d
+                r2, _, d2 = judge(small, tmp, CASE_TIMEOUT)
+                if r2 is None or d2 is None:
+                    r2, d2 = run, d
                 res['violations'].append((sig, '%s storage answered %s ; the list of committed '
                                           'transactions says %s (after %r)' % (
                                               case['kind'], d2[1][:300], d2[2][:300],
@@ -1006,7 +1046,8 @@ def work(args):
         except InfraError as e:
             res['infra'] = str(e)
             return res
-        for (case, _, _), run, (off, idx) in zip(res['cases'], runs, spans):
+        for run, (off, idx) in zip(runs, spans):
+            case = run.case
             if not run.judged:
                 continue
             for k, i in enumerate(idx):
